@@ -511,6 +511,20 @@ def c17(tier, seed):
             steps += [{"do": "discovered", "part": p} for p in range(3)]
         out.append({"name": f"C17-{mode}-{k}", "family": mode, "seed": seed * 53 + k, "frag": 1344, "steps": steps, "log_meta": True,
                     "max_steps": 12000000})
+    # an ignored participant goes away while its announcements are duplicated and reordered: an alive announcement that
+    # arrives after the unregister one must not bring the ignored participant back
+    ni = 10 if tier == "quick" else 80
+    for k in range(ni):
+        steps = [{"do": "participant"}, {"do": "participant"}, {"do": "participant"}, {"do": "sleep", "ms": 300},
+                 {"do": "ignore_participant", "part": 0, "target": 1}, {"do": "sleep", "ms": 200}, {"do": "discovered", "part": 0},
+                 {"do": "meta_faults", "loss": 0.0, "dup": rng.choice([0.3, 0.6]), "delay": 0.9, "max_delay_ms": rng.choice([300, 1500, 4000])},
+                 {"do": "participant"},                       # everybody announces itself again to the newcomer
+                 {"do": "sleep", "ms": rng.choice([1, 30, 200])},
+                 {"do": "delete_participant", "part": 1},
+                 {"do": "sleep", "ms": 6000}, {"do": "discovered", "part": 0}, {"do": "discovered", "part": 2},
+                 {"do": "heal"}, {"do": "sleep", "ms": 6500}, {"do": "discovered", "part": 0}]
+        out.append({"name": f"C17-ignorereorder-{k}", "family": "ignorereorder", "seed": seed * 57 + k, "frag": 1344, "steps": steps, "log_meta": True,
+                    "max_steps": 12000000})
     return out
 
 
